@@ -15,7 +15,7 @@ PLAN = dict(
           "four operators and through best_match in both argument orders and compared with a "
           "reference transliteration of pkg_install's dewey rule. Non-trivial = A != B textually "
           "and the reference decides after the first component; distinct = distinct (A,B) by "
-          "64-bit fingerprint. Later additions: every bound B is also used in ranges whose other end is a near neighbour of B (B.0, Brc1, Bnb1, B.1, B without its last token; both orders, four operator pairs), observed at the ranges' own ends and against A; a length sweep (versions of exactly k components for every k <= 70 and around the powers of two up to 2048, every kind of token last); pairs of versions that collide under common fast hash functions (FNV-1a, djb2, sdbm, 31*h, truncated SipHash), found by a birthday search at run time. Round 7: revision clusters - one stem and its equal-valued respelling with every short tail of digits, signs, separators and blanks behind 'nb' (and a further revision behind that), all ordered pairs; number respellings (sign, blanks, radix prefix) as a neighbour edit."),
+          "64-bit fingerprint. Later additions: every bound B is also used in ranges whose other end is a near neighbour of B (B.0, Brc1, Bnb1, B.1, B without its last token; both orders, four operator pairs), observed at the ranges' own ends and against A; a length sweep (versions of exactly k components for every k <= 70 and around the powers of two up to 2048, every kind of token last); pairs of versions that collide under common fast hash functions (FNV-1a, djb2, sdbm, 31*h, truncated SipHash), found by a birthday search at run time. Round 7: revision clusters - one stem and its equal-valued respelling with every short tail of digits, signs, separators and blanks behind 'nb' (and a further revision behind that), all ordered pairs; number respellings (sign, blanks, radix prefix) as a neighbour edit. Round 9: every string of at most four tokens over 0 1 2 7 . _ (doubled, leading and trailing separators, empty and zero components), ordered pairs sampled by hash; a zero-valued token respelt as another (0 . _ pl) as a neighbour edit."),
     exhaustive={"quick": "SMALL(2): all ordered pairs of the 157 strings of <=2 tokens",
                 "thorough": "SMALL(3): all ordered pairs of the 1885 strings of <=3 tokens"},
     assumptions=[
